@@ -52,7 +52,7 @@ fn c13_call_contract_p1() {
 fn c13_call_contract_p32() {
     c13_call_contract(32)
 }
-// HARNESS props=C13 tier=thorough profile=gw_c13 shape="payload 31 bytes"
+// HARNESS props=C13 tier=quick profile=gw_c13 shape="payload 31 bytes"
 #[kani::proof]
 #[kani::unwind(98)]
 fn c13_call_contract_p31() {
@@ -65,7 +65,7 @@ fn c13_call_contract_p33() {
     c13_call_contract(33)
 }
 
-// HARNESS props=C13 tier=thorough profile=gw_c13b shape="payload 64 bytes"
+// HARNESS props=C13 tier=quick profile=gw_c13b shape="payload 64 bytes"
 #[kani::proof]
 #[kani::unwind(132)]
 fn c13_call_contract_p64() {
